@@ -1,0 +1,45 @@
+//go:build verif
+
+package wal
+
+// C10 (thin): a WAL block is decoded only after its CRC-32 matched the stored
+// checksum, the framing arithmetic cannot wrap, and the writer frames a block
+// as size | checksum of the payload | payload.  The prefix-after-crash part
+// of the property is about file-system histories and is not decided here.
+// Checked by /verif/bin/govc.  Comment-only file.
+
+//@ func (*DPWalIterator).Next
+//@   props C10
+//@   requires it != nil
+//@   site call utils.ResizeSlice #1:
+//@     assert [no-underflow] blockSize >= 4 && arg1 == int(blockSize) - 4
+//@   site call it.decodeWALBlock #1:
+//@     assert [crc-gate] calculatedChecksum == checksum && calculatedChecksum == uf("crc32", uint32, it.readBuf)
+//@ end
+
+//@ func (*MNameWalIterator).Next
+//@   props C10
+//@   requires it != nil
+//@   site call utils.ResizeSlice #1:
+//@     assert [no-underflow] blockSize >= 4 && arg1 == int(blockSize) - 4
+//@   site call it.decompressMetricNames #1:
+//@     assert [crc-gate] calculatedChecksum == checksum && calculatedChecksum == uf("crc32", uint32, it.readBuf)
+//@ end
+
+//@ func (*Wal).writeBlockToFile
+//@   props C10
+//@   requires w != nil && len(w.encodedBuf) <= 4294967291 && len(w.checksumBuf) >= 4
+//@   site call w.fd.Write #1:
+//@     assert [size-first] blockSize == uint32(len(w.encodedBuf)) + 4 && uint64(blockSize) == uint64(len(w.encodedBuf)) + 4
+//@   site call w.fd.Write #2:
+//@     assert [checksum-of-payload] le32(w.checksumBuf) == uf("crc32", uint32, w.encodedBuf) && samebase(arg1, w.checksumBuf)
+//@   site call w.fd.Write #3:
+//@     assert [payload-last] samebase(arg1, w.encodedBuf) && len(arg1) == len(w.encodedBuf)
+//@ end
+
+//@ func (*MMetaEntryIterator).Next
+//@   props C10
+//@   requires it != nil
+//@   site call json.Unmarshal #1:
+//@     assert [crc-gate] calculatedChecksum == checksum && calculatedChecksum == uf("crc32", uint32, it.readBuf) && samebase(arg0, it.readBuf)
+//@ end
